@@ -370,6 +370,46 @@ def run(pid, tier):
     return rep.finish()
 
 
+def replay(path):
+    """./check --replay <file> for the prefix-table domain: re-run the recorded history on the current tree and on the model"""
+    pid = os.path.basename(path).split("_")[0]
+    c = Case("replay")
+    for l in open(path):
+        l = l.rstrip("\n")
+        if l.startswith("--- "):
+            break
+        if l and not l.startswith("#"):
+            c.emit(l.split("    => ")[0], tag_of(l.split("    => ")[0]))
+    if not c.ops:
+        print(open(path).read())
+        print("(no recorded history in this replay file: it names the proof obligation / correspondence that no longer checks)")
+        return 1
+    vlib.lake_build(["pfxdriver"])
+    drv = vlib.driver_path("pfxdriver")
+    exe, blog = vlib.build_harness("pfx", ["pfx_harness.c"])
+    if exe is None:
+        print(blog)
+        return 1
+    io, rc, err = vlib.run_lines(exe, c.ops)
+    mo, mrc, merr = vlib.run_lines(drv, c.ops)
+    print("\n".join("%s    => %s" % (a, b) for a, b in zip(c.ops, io)))
+    bad = 0
+    if rc != 0 or len(io) != len(c.ops):
+        bad = 1
+        print("implementation aborted (rc=%s) after %d replies: %s\n%s" % (rc, len(io), crash_signature(err), err[-2500:]))
+    else:
+        d = vlib.first_divergence(io, mo)
+        if d is not None:
+            bad = 1
+            print("DIVERGENCE from the model at line %d (%s)\n impl : %s\n model: %s" % (d, c.ops[d] if d < len(c.ops) else "", io[d] if d < len(io) else "<eof>", mo[d] if d < len(mo) else "<eof>"))
+        for f in oracle(c, io, pid):
+            if f[0] == pid:
+                bad = 1
+                print("ORACLE %s line %s: %s" % f)
+    print("replay: %s" % ("FAILS" if bad else "passes on the current tree"))
+    return bad
+
+
 def tag_of(line):
     w = line.split()
     if w[0] in ("add", "rm") and w[1] == "0":
